@@ -143,7 +143,7 @@ def run(ctx):
             lib.eq_guarded(ctx, '1d create_dir-only-in-create-mode', o, s, 'the directory is created only when opening_mode == Create', params=[2])
         top_site = chain[0][1] if chain else None
         if top_site is not None:
-            later = o.call_sites('options::Options::load_and_validate_metadata')
+            later = o.call_sites('re:^options::Options::load_and_validate_metadata(_in_version)?$')
             for s in later:
                 lib.result_guards(ctx, '1f continue-only-if-locked', o, [top_site], s, 'metadata is loaded only on the Ok outcome of the lock attempt')
         # ------------------------------------------------ 2. held for the handle's lifetime
@@ -169,9 +169,10 @@ def run(ctx):
             ctx.ob('2b lock-not-dropped-before-store', 'K2-order', o.path, 'no drop of the locked File lies on a path to the DbInner construction', not bad, 'drops: %s' % bad)
     mk = sorted(b.path for b in F.bodies.values() if any(s['k'] == 'assign' and s['r']['k'] == 'agg' and s['r']['ak'] == 'Adt:db::DbInner' for blk in b.blocks for s in blk['s']))
     ctx.ob('2c DbInner-constructed-only-in-open', 'K4-confinement', ','.join(mk), 'DbInner values are constructed only in DbInner::open', mk == ['db::DbInner::open'], str(mk))
-    lib.callers_confined(ctx, '2d DbInner::open-callers', F, ['db::DbInner::open'], {'db::Db::open_inner'}, 'DbInner::open is called only by Db::open_inner', required=['db::Db::open_inner'])
+    inner = sorted(p2 for p2 in F.bodies if re.match(r'^db::Db::open_inner\w*$', p2))      # open_inner, or a variant that takes one more argument
+    lib.callers_confined(ctx, '2d DbInner::open-callers', F, ['db::DbInner::open'], set(inner), 'DbInner::open is called only by Db::open_inner', required=inner[:1])
     mk = sorted(b.path for b in F.bodies.values() if any(s['k'] == 'assign' and s['r']['k'] == 'agg' and s['r']['ak'] == 'Adt:db::Db' for blk in b.blocks for s in blk['s']))
-    ctx.ob('2e Db-constructed-only-in-open_inner', 'K4-confinement', ','.join(mk), 'Db handles are constructed only in Db::open_inner', mk == ['db::Db::open_inner'], str(mk))
+    ctx.ob('2e Db-constructed-only-in-open_inner', 'K4-confinement', ','.join(mk), 'Db handles are constructed only in Db::open_inner', len(mk) == 1 and mk[0] in inner, str(mk))
     # nobody else writes / takes the lock_file field
     wr = []
     for b in F.bodies.values():
@@ -230,3 +231,22 @@ def run(ctx):
     dr = ctx.body('<db::Db as std::ops::Drop>::drop')
     if dr:
         lib.must_pass(ctx, '3g Drop-calls-drop_inner', dr, dr.call_sites('db::Db::drop_inner'), 'Drop for Db always runs drop_inner', cut_errors=False)
+    # 3. the entry points that work on a closed database (migration, column administration) modify nothing in a database directory
+    # before they have opened a handle on it - a call that is refused with Error::Locked must not have written already (F56: migrate
+    # created the destination directory and its metadata first; run concurrently with another opener it replaced a live database's salt)
+    WRITE_PRIMS = ['std::fs::create_dir_all', 'std::fs::create_dir', 'std::fs::write', 'std::fs::rename', 'std::fs::remove_file', 'std::fs::remove_dir_all',
+                   'std::fs::remove_dir', 'std::fs::copy', 're:std::fs::File::set_len$', 're:std::fs::File::create$']
+    OPENERS = ['re:^db::Db::open(_or_create\\w*|_read_only|_inner\\w*)?$', 'db::Db::precheck_column_operation']
+    n3 = 0
+    for fn in ('migration::migrate', 'migration::clear_column', 'db::Db::add_column', 'db::Db::drop_last_column', 'db::Db::reset_column'):
+        b = ctx.body(fn)
+        if not b:
+            continue
+        opens = lib.sites_reaching(b, OPENERS, lift=False)
+        eff = [x for x in lib.sites_reaching(b, WRITE_PRIMS) if x not in opens]
+        n3 += 1
+        ctx.ob('3a0 offline-entry-anchors %s' % fn, 'anchor', fn, 'the entry point opens a handle and modifies files', len(opens) >= 1 and len(eff) >= 1, 'opens %s effects %s' % (opens, eff))
+        lib.precedes(ctx, '3a nothing-written-before-a-handle-was-opened %s' % fn, b, opens, eff,
+                     'every file modification of the entry point is preceded on all paths by the opening of a database handle (which takes the directory lock or fails with Error::Locked)')
+    ctx.ob('3a1 offline-entry-points', 'anchor', '-', 'migrate, clear_column and the three column administration calls were found', n3 == 5, 'found %d' % n3)
+
